@@ -1,14 +1,15 @@
-from copy import copy
+import threading
 
 
 class VirtualCounter:
-    _instance = None
-    dataset_count: int = 0
-    component_count: int = 0
+    """Names for intermediate (virtual) datasets and components.
 
-    def __init__(self) -> None:
-        self.dataset_count = 0
-        self.component_count = 0
+    The counters are kept per thread: as class attributes they were shared by every API
+    call in the process, so concurrent calls reset and advanced each other's numbering.
+    """
+
+    _instance = None
+    _local = threading.local()
 
     def __new__(cls):  # type: ignore[no-untyped-def]
         if cls._instance is None:
@@ -18,17 +19,17 @@ class VirtualCounter:
 
     @classmethod
     def reset(cls) -> None:
-        cls.dataset_count = 0
-        cls.component_count = 0
+        cls._local.dataset_count = 0
+        cls._local.component_count = 0
 
     @classmethod
     def _new_ds_name(cls) -> str:
-        cls.dataset_count += 1
-        name = f"__VDS_{copy(cls.dataset_count)}__"
-        return name
+        count = getattr(cls._local, "dataset_count", 0) + 1
+        cls._local.dataset_count = count
+        return f"__VDS_{count}__"
 
     @classmethod
     def _new_dc_name(cls) -> str:
-        cls.component_count += 1
-        name = f"__VDC_{copy(cls.component_count)}__"
-        return name
+        count = getattr(cls._local, "component_count", 0) + 1
+        cls._local.component_count = count
+        return f"__VDC_{count}__"
